@@ -35,6 +35,10 @@ class EchoServer:
                 sc.write(wire.build_response(503, body=b"busy"))
             return
         rid = req.target.decode("latin-1").split("?")[0].strip("/")
+        if rid.endswith("corrupt"):
+            # announced as gzip, is not: a reader that decodes in pieces gets DecodeError with body bytes still unread
+            sc.write(wire.build_response(200, headers=[("Content-Encoding", "gzip")], body=("id=" + rid + ";" + "not-gzip-at-all" * 4).encode()))
+            return
         sc.write(wire.build_response(200, body=("id=" + rid + ";" + "x" * 20).encode()))
 
 
@@ -141,7 +145,17 @@ def run_schedule(cfg: dict[str, typing.Any], policy: tuple[typing.Any, ...]) -> 
                     rid = f"w{i}r{k}"
                     try:
                         p = box["pool"]
-                        if cfg.get("watchdog"):
+                        if cfg.get("corrupt_first") and k == 0:
+                            # the first answer each worker gets is undecodable: it reads a piece, handles the DecodeError
+                            # and disposes of the response the way `with response:` does; the slot must come back
+                            r = p.urlopen("GET", "/" + rid + "corrupt", preload_content=False)
+                            try:
+                                r.read(5)
+                            except urllib3.exceptions.DecodeError:
+                                pass
+                            r.close()
+                            body = ("id=" + rid + ";").encode()  # (content is not judged for this one)
+                        elif cfg.get("watchdog"):
                             # a watchdog that fires late: shutdown() ("unblock a read from another thread") of a response
                             # that was read and released a moment ago
                             r = p.urlopen("GET", "/" + rid, preload_content=False)
@@ -454,6 +468,8 @@ def configs(ctx: Ctx) -> list[dict[str, typing.Any]]:
     for maxsize in (1, 2):
         for block in (True, False):
             out.append({"workers": 2, "reqs": 2, "maxsize": maxsize, "block": block, "closer": False, "fail_first": 0, "fail_kind": "503", "preload": False, "watchdog": True})
+    for workers, maxsize in ((2, 1), (3, 2)):
+        out.append({"workers": workers, "reqs": 2, "maxsize": maxsize, "block": True, "closer": False, "fail_first": 0, "fail_kind": "503", "preload": False, "corrupt_first": True})
     # a body-less retry status / redirect as the first answer(s): the follow-up attempt needs the slot the first one used
     for workers in (2,):
         for maxsize in (1, 2):
@@ -466,32 +482,12 @@ def configs(ctx: Ctx) -> list[dict[str, typing.Any]]:
 def run_shard(ctx: Ctx, rec: Recorder) -> None:
     cfgs = configs(ctx)
     mine = [c for i, c in enumerate(cfgs) if ctx.mine(i)]
-    # (a1) systematic: preemption-bounded enumeration at line granularity over the shared-state functions
-    bound = 1 if ctx.quick else 2
-    per_cfg = ctx.pick(200, 2500)
-    for cfg in mine:
-        if ctx.out_of_time(0.45):
-            rec.count("systematic_cut_short_by_budget")
-            break
-        n = 0
-
-        def run_one(policy: tuple[typing.Any, ...], cfg: dict[str, typing.Any] = cfg) -> tuple[list[tuple[int, list[int]]], typing.Any]:
-            o = run_schedule(cfg, policy)
-            return o["point_info"], o
-
-        for decisions, o in sched.explore(run_one, bound=bound, max_runs=per_cfg):
-            rec.case(["sys", cfg, decisions], nontrivial=len(decisions) > 0)
-            judge(rec, cfg, ["replay", decisions], o)
-            n += 1
-            if n == 2:
-                rec.sample({"cfg": cfg, "decisions": decisions, "switch_sites": [(c, l) for _, _, c, l in o["switches"]], "results": o["results"]})
-    rec.exhaustive_parts.append(f"all schedules with <= {bound} preemption(s) at line granularity inside {SHARED_FUNCS} (capped at {per_cfg} per configuration)")
-    # (a1') directed family for close(): one worker is preempted inside urlopen (so that both hold a connection, or one
+    # (a1') directed family for close() - run first, so that a loaded machine cannot starve it: one worker is preempted inside urlopen (so that both hold a connection, or one
     # waits) and then close() runs, to completion, at every later statement of the shared-state functions
     for cfg in mine:
         if not cfg["closer"] or cfg["workers"] != 2 or (ctx.quick and cfg["reqs"] != 1):
             continue
-        if ctx.out_of_time(0.6):
+        if ctx.out_of_time(0.3):
             rec.count("directed_cut_short_by_budget")
             break
         closer_idx = cfg["workers"]
@@ -514,9 +510,35 @@ def run_shard(ctx: Ctx, rec: Recorder) -> None:
             return o["point_info"], o
 
         for decisions, o in sched.explore(run_one2, bound=2, max_runs=ctx.pick(700, 6000), expand=expand):
+            if ctx.out_of_time(0.3):
+                rec.count("directed_cut_short_by_budget")
+                break
             rec.case(["close-directed", cfg, decisions], nontrivial=len(decisions) > 0)
             rec.mon("close_directed_schedule")
             judge(rec, cfg, ["replay", decisions], o)
+    # (a1) systematic: preemption-bounded enumeration at line granularity over the shared-state functions
+    bound = 1 if ctx.quick else 2
+    per_cfg = ctx.pick(200, 2500)
+    for cfg in mine:
+        if ctx.out_of_time(0.65):
+            rec.count("systematic_cut_short_by_budget")
+            break
+        n = 0
+
+        def run_one(policy: tuple[typing.Any, ...], cfg: dict[str, typing.Any] = cfg) -> tuple[list[tuple[int, list[int]]], typing.Any]:
+            o = run_schedule(cfg, policy)
+            return o["point_info"], o
+
+        for decisions, o in sched.explore(run_one, bound=bound, max_runs=per_cfg):
+            if ctx.out_of_time(0.65):
+                rec.count("systematic_cut_short_by_budget")
+                break
+            rec.case(["sys", cfg, decisions], nontrivial=len(decisions) > 0)
+            judge(rec, cfg, ["replay", decisions], o)
+            n += 1
+            if n == 2:
+                rec.sample({"cfg": cfg, "decisions": decisions, "switch_sites": [(c, l) for _, _, c, l in o["switches"]], "results": o["results"]})
+    rec.exhaustive_parts.append(f"all schedules with <= {bound} preemption(s) at line granularity inside {SHARED_FUNCS} (capped at {per_cfg} per configuration)")
     # (b) real-scheduler stress with the stdlib queue
     for k in range(ctx.pick(1, 4)):
         scfg = {"workers": ctx.pick(6, 12), "reqs": ctx.pick(40, 150), "maxsize": [1, 2, 3][(ctx.shard + k) % 3], "block": (ctx.shard + k) % 2 == 0, "closer": (ctx.shard + k) % 4 == 1, "yield_p": 0.02}  # (closer only on non-blocking pools: the blocking case is the recorded hang)
